@@ -217,14 +217,14 @@ def float_sum_cases(ctx):
     eps = Fraction(1, 2 ** 53)
     pools = [[0.1], [1 / 3], [0.1, 0.2, 0.7], [1 / 3, 1 / 7, 1 / 9], [0.05, 1.0, 0.3], [1e-3, 2.5, 1 / 48, 1 / 96]]
     inexact_total = 0
-    for i in range(ctx.scale(8, 64)):
+    for i in range(ctx.scale(8, 24)):
         tl = iso.Timeline(tempo=120, output_device=sched_impl.RecDevice(), clock_source=sched_impl.DummyClock(ticks_per_beat=24))
         tr = iso.Track(tl)
         pool = r.choice(pools) if r.random() < 0.7 else [r.choice([r.random() * 4, r.randint(1, 40) / r.randint(3, 97)]) for _ in range(r.randint(1, 5))]
         s0 = r.choice([0.0, 0.0, float(r.randint(0, 5000)), r.randint(0, 10 ** 6) / 24])
         tr.next_event_time = s0
         tr.next_event_time_error = 0.0
-        k = ctx.scale(40000, 600000)
+        k = ctx.scale(40000, 300000)
         exact = Fraction(s0)                 # exact sum from the very start
         M = abs(Fraction(s0))
         # the stretch the theorem applies to: from `ref_at` (the step after the last inexact recovery) on
@@ -294,7 +294,7 @@ def typed_duration_cases(ctx):
         np = None
     r = ctx.rng
     kinds = (["numpy.float32", "numpy.float64"] if np is not None else []) + ["float", "Fraction", "int-and-float"]
-    for i in range(ctx.scale(5, 40)):
+    for i in range(ctx.scale(5, 20)):
         kind = kinds[i % len(kinds)] if i < len(kinds) else r.choice(kinds)
         tpb = r.choice([480, 480, 96, 24])
         base = r.choice([[0.1], [1 / 3], [5 / 7, 0.29], [0.1, 0.2, 0.7], [0.29], [1 / 9, 0.41]])
